@@ -56,7 +56,7 @@ def cells(tier):
                 for lay in ("C", "S"):
                     if lay == "S" and shape in ((), (0,)):
                         continue
-                    for kw in (None, "dtype=float32", "dtype=float64", "out"):
+                    for kw in (None, "dtype=float32", "dtype=float64", "out", "where", "where+dtype=float64", "where+dtype=float32+noout"):
                         yield ("U", u, dt, shape, lay, kw)
     pairs = [((3,), (3,)), ((2, 3), (3,)), ((), ()), ((3,), ()), ((0,), ())]
     for b in bi:
@@ -69,8 +69,8 @@ def cells(tier):
                         continue
                     if b == "matmul" and (s1 == () or s2 == () or d1 in PYSCALARS or d2 in PYSCALARS):
                         continue
-                    for kw in (None, "dtype=float32", "where"):
-                        if kw == "where" and b == "matmul":
+                    for kw in (None, "dtype=float32", "where", "where+dtype=float64", "where+dtype=float32+noout", "out+dtype=float64"):
+                        if kw != "dtype=float32" and kw is not None and b == "matmul":
                             continue
                         yield ("B", b, d1, d2, s1, s2, kw)
     # (`%` and abs() are not defined for Tensor: no MyGrad operator, hence no claim)
@@ -198,6 +198,53 @@ def compare(f_mg, f_np, f_mg_again=None):
     return None
 
 
+def masked_call(npf, mgf, xs, kw):
+    """ufunc call with where= (and optionally dtype=, with or without out=): with out=, the whole target must agree; without,
+    the dtype, the shape and the selected entries (NumPy leaves the others uninitialised)"""
+    parts = kw.split("+")
+    kwargs = {}
+    for p_ in parts:
+        if p_.startswith("dtype="):
+            kwargs["dtype"] = p_.split("=")[1]
+    shp = np.broadcast_shapes(*[np.shape(x) for x in xs])
+    m = (np.arange(int(np.prod(shp))).reshape(shp) % 2 == 0)
+    if "where" in parts:
+        kwargs["where"] = m
+    res = call(lambda: npf(*xs, **{k: v for k, v in kwargs.items() if k != "where"}))
+    if res[0] == "err":
+        return compare(lambda: mgf(*[T(x) for x in xs], **kwargs), lambda: npf(*xs, **kwargs), None)
+    if "noout" in parts:
+        rn = call(lambda: npf(*xs, **kwargs))
+        for tracked in (True, False):
+            import mygrad as mg
+
+            if tracked:
+                rm = call(lambda: mgf(*[T(x) for x in xs], **kwargs))
+            else:
+                with mg.no_autodiff:
+                    rm = call(lambda: mgf(*[T(x) for x in xs], **kwargs))
+            pre = "" if tracked else "untracked_"
+            if rn[0] == "err":
+                if rm[0] == "ok":
+                    return (pre + "not_rejected", "numpy raises %s but mygrad returned a result" % rn[1])
+                continue
+            if rm[0] == "err":
+                return (pre + "exception", "numpy accepts the call, mygrad raised %s: %s" % (rm[1], rm[2]))
+            md, nd = np.asarray(rm[1].data if hasattr(rm[1], "data") and not isinstance(rm[1], np.ndarray) else rm[1]), np.asarray(rn[1])
+            if md.shape != nd.shape:
+                return (pre + "shape", "mygrad %s, numpy %s" % (md.shape, nd.shape))
+            if md.dtype != nd.dtype:
+                return (pre + "dtype", "mygrad %s, numpy %s" % (md.dtype, nd.dtype))
+            if not np.array_equal(md[m], nd[m], equal_nan=md.dtype.kind in "fc"):
+                return (pre + "value", "selected entries: mygrad %s, numpy %s" % (md[m], nd[m]))
+        return None
+    o1, o2, o3 = (np.full(np.shape(res[1]), 7, dtype=np.asarray(res[1]).dtype) for _ in range(3))
+    r = compare(lambda: mgf(*[T(x) for x in xs], out=o1, **kwargs), lambda: npf(*xs, out=o2, **kwargs), lambda: mgf(*[T(x) for x in xs], out=o3, **kwargs))
+    if r is None and not (np.array_equal(o1, o2, equal_nan=o1.dtype.kind in "fc") and np.array_equal(o3, o2, equal_nan=o1.dtype.kind in "fc")):
+        return ("out_value", "out= target holds different values")
+    return r
+
+
 def operand(d, shape, off=0):
     return PYSCALARS[d] if d in PYSCALARS else arr(shape, d, off)
 
@@ -224,6 +271,8 @@ def check(cell):
         kwargs = {}
         if kw and kw.startswith("dtype="):
             kwargs["dtype"] = kw.split("=")[1]
+        if kw and "where" in kw:
+            return masked_call(npf, mgf, (x,), kw)
         if kw == "out":
             res = call(lambda: npf(x))
             if res[0] == "err":
@@ -245,14 +294,8 @@ def check(cell):
         kwargs = {}
         if kw and kw.startswith("dtype="):
             kwargs["dtype"] = kw.split("=")[1]
-        if kw == "where":
-            shp = np.broadcast_shapes(np.shape(x), np.shape(y))
-            m = (np.arange(int(np.prod(shp))).reshape(shp) % 2 == 0)
-            res = call(lambda: npf(x, y))
-            if res[0] == "err":
-                return ("skip", "numpy rejects")
-            o1, o2, o3 = (np.full(np.shape(res[1]), 7, dtype=np.asarray(res[1]).dtype) for _ in range(3))
-            return compare(lambda: mgf(T(x), T(y), where=m, out=o1), lambda: npf(x, y, where=m, out=o2), lambda: mgf(T(x), T(y), where=m, out=o3))
+        if kw and ("where" in kw or kw.startswith("out+")):
+            return masked_call(npf, mgf, (x, y), kw)
         return compare(lambda: mgf(T(x), T(y), **kwargs), lambda: npf(x, y, **kwargs), lambda: mgf(T(x), T(y), **kwargs))
     if kind == "O":
         _, o, d1, other, refl, side = cell
